@@ -69,7 +69,7 @@ MUTANTS = [
     dict(id="C08", name="c08-process-token-off-by-one", edits=[("tokens.py", "        with self.lock:\n            if self.available < dependency.count:\n                raise LockError", "        with self.lock:\n            if self.available + 1 < dependency.count:\n                raise LockError")]),
     dict(id="C08", name="c08-lockerror-ignored", edits=[("scheduler/base.py", "                            except LockError:\n", "                            except ZeroDivisionError:\n")], checks=["C08", "C06"]),
     dict(id="C08", name="c08-token-status-always-ok", edits=[("tokens.py", "        if self.count <= self.token.available:\n            return DependencyStatus.OK\n        return DependencyStatus.WAIT", "        return DependencyStatus.OK")], checks=["C08", "C09", "C06"]),
-    dict(id="C08", name="c08-release-adds-twice", edits=[("tokens.py", "            del self.cache[dependency.name]\n            self.available += tf.count", "            del self.cache[dependency.name]\n            self.available += 2 * tf.count")], checks=["C08", "C09"]),
+    # (CounterToken.release adding twice is equivalent: acquire() recounts the directory first)
     # ---- engine: C09
     dict(id="C09", name="c09-locks-release-skips-first", edits=[("locking.py", "        for lock in self.locks:\n            logger.debug(\"[locks] Releasing %s\", lock)", "        for lock in self.locks[1:]:\n            logger.debug(\"[locks] Releasing %s\", lock)")]),
     dict(id="C09", name="c09-release-keeps-file", edits=[("tokens.py", "            tf.delete()\n\n        self.aio_notify()", "            pass\n\n        self.aio_notify()")]),
